@@ -71,6 +71,12 @@ CHECKS = {
                      "and emit a diagnostic; a cyclic structure shows as stack overflow of the printer under the watchdog",
                 note="states = distinct reference heaps reached; arrays have no hidden state, so printing every variable observes the whole state",
                 technique="explicit enumeration of operation histories on the real VM against a reference heap model"),
+    "C13": dict(level="exploration", ref="3/C13",
+                text="all texts header(12) x conditional wrapper(6) x sequences of <=2/3 use-segments (44-segment alphabet) and #include cases, "
+                     "preprocessed by the real preprocessor and compared token-for-token (strings byte-for-byte, plain text verbatim) with the "
+                     "reference expander",
+                note="trusted: reference expander vf/ref/preproc.py implementing the clauses of the statement; ambiguous constructs are outside the alphabet (listed in assumptions)",
+                technique="bounded exhaustive enumeration of source texts from a grammar against a reference expander"),
 }
 
 PENDING_REASON = "check not built yet in this round (planned, see DESIGN.md section 3)"
